@@ -48,6 +48,18 @@ def main(argv=None):
         code = core.finish(ctx, mod)
     except core.HarnessError as e:
         print("HARNESS-ERROR property=%s %s" % (pid, e))
+        if ctx.violations:
+            # Parts that had already completed found violations: those verdicts stand on their own replays and are
+            # reported; the part that failed contributes nothing.
+            ctx.exhaustive = False
+            ctx.assumptions.append('a later part aborted with a harness error (%s); only completed parts are reported' % str(e)[:120])
+            try:
+                code = core.finish(ctx, mod)
+            except Exception:
+                import traceback
+                traceback.print_exc()
+                return 2
+            return 1 if code == 1 else 2
         return 2
     except Exception as e:
         # a crash of the machinery itself is never a verdict about the property
